@@ -348,6 +348,7 @@ pub fn run(ctx: &Ctx) -> i32 {
     report.traces_validated = report.evaluations;
     report.distinct_nontrivial = acc.counters.get("nontrivial").copied().unwrap_or(0);
     procpar::into_report(acc, crashes, &mut report);
+    crate::c08real::run_real(ctx, &mut report);
     report.rule = "every assignment of at most `bound` faults from the alphabet to the exchange positions of a resolution (choice-point DFS: position x fault, later positions re-enumerated because a fault changes what follows), all candidate orders, per scenario (universe x mode x protocol mode x question); one execution = dns_resolver::resolve run to completion on tokio's paused clock; non-trivial = executions in which at least one exchange carried a fault (measured); states = distinct (scenario, outcome, fault list, duration) observations".into();
     report.bounds = json!({
         "fault_alphabet": fault_alphabet().iter().map(show_fault).collect::<Vec<_>>(),
@@ -412,6 +413,9 @@ fn replay_inner(ctx: &Ctx, v: &Value) -> i32 {
 }
 
 pub fn replay(ctx: &Ctx, v: &Value) -> i32 {
+    if v["kind"] == "real-transport" {
+        return crate::c08real::replay(ctx, v);
+    }
     procpar::replay_in_child(ctx, v)
 }
 
